@@ -251,9 +251,11 @@ pub fn records(rng: &mut Rng, cfg: &Cfg) -> Vec<Rec> {
     let first_serial = if cfg.wraps && rng.chance(1, 3) { 99_990 + rng.below(8) } else { 1 + rng.below(50) };
     let mut serial;
     let shape_seed = rng.next();
+    // model serial numbers of one to four digits
+    let first_model = *rng.pick(&[1usize, 1, 1, 2, 9, 10, 99, 998, 4242, 9997]);
     for mi in 0..n_models.max(1) {
         if n_models > 0 {
-            out.push(Rec::Model(mi + 1));
+            out.push(Rec::Model(first_model + mi));
         }
         // the serial numbers start again in every model (the models of a file describe the same atoms)
         serial = first_serial;
